@@ -18,8 +18,8 @@ impl Property for C12 {
         }
     }
     fn rule(&self) -> &'static str {
-        "cycles of length 1-4 among .do scripts, reached directly or through an acyclic prefix, with \
-         acyclic siblings, entered at every node, by redo or redo-ifchange at -j1..4, on a first build \
+        "cycles of length 1-4 among .do scripts (plain and checksummed nodes), reached directly or \
+         through an acyclic prefix of 0-8 nodes, with acyclic siblings, entered at every node, by redo or redo-ifchange at -j1..4, on a first build \
          and on a rebuild after the cycle was introduced by a rule edit; oracle: the run terminates (no \
          simulator deadlock, no step/time cap), the top-level status is non-zero, some process reports \
          a cyclic dependency (exit 208 or the message), nothing panics; non-trivial = >=1 preemption and \
@@ -39,6 +39,7 @@ impl Property for C12 {
             },
         ));
         let late = index % 3 == 2; // cycle introduced by a later rule edit
+        let csum_pm: u64 = if late { *rng.pick(&[0, 300, 500]) } else { *rng.pick(&[0, 0, 300]) };
         for i in 0..len {
             let next = cyc[(i + 1) % len].clone();
             let mut deps = vec![next];
@@ -48,16 +49,23 @@ impl Property for C12 {
             if rng.chance(1, 3) {
                 deps.push("s0".into());
             }
+            let mut stmts = vec![Stmt::IfChange(deps)];
+            if csum_pm > 0 && rng.chance(csum_pm, 1000) {
+                // a checksummed node: its dependents are re-checked out of
+                // band (redo-unlocked) when the cycle appears later
+                stmts.push(Stmt::Stamp { only: Vec::new() });
+            }
             rules.push((
                 format!("{}.do", cyc[i]),
                 Rule {
                     version: 0,
-                    stmts: vec![Stmt::IfChange(deps)],
+                    stmts,
                 },
             ));
         }
-        // acyclic prefix leading into the cycle
-        let plen = rng.below(3) as usize;
+        // acyclic prefix leading into the cycle (sometimes long, so that
+        // database ids reach two digits)
+        let plen = if rng.chance(1, 5) { rng.range(3, 8) as usize } else { rng.below(3) as usize };
         let mut entry = rng.pick(&cyc).clone();
         for i in 0..plen {
             let name = format!("p{}", i);
@@ -68,11 +76,15 @@ impl Property for C12 {
                     deps.reverse();
                 }
             }
+            let mut stmts = vec![Stmt::IfChange(deps)];
+            if csum_pm > 0 && rng.chance(csum_pm / 2, 1000) {
+                stmts.push(Stmt::Stamp { only: Vec::new() });
+            }
             rules.push((
                 format!("{}.do", name),
                 Rule {
                     version: 0,
-                    stmts: vec![Stmt::IfChange(deps)],
+                    stmts,
                 },
             ));
             entry = name;
@@ -94,8 +106,20 @@ impl Property for C12 {
                     r.stmts = vec![Stmt::IfChange(vec!["s0".into()])];
                 }
             }
+            if rng.chance(1, 2) {
+                // an inner node is built (and gets its database id) before its ancestors
+                let inner = rng.pick(&cyc).clone();
+                sc.history
+                    .push(Step::Cmds(vec![redo_cmd(rng, "redo-ifchange", &[inner], 2, 200)]));
+            }
             sc.history
                 .push(Step::Cmds(vec![redo_cmd(rng, "redo-ifchange", &[entry.clone()], 3, 200)]));
+            if rng.chance(1, 3) {
+                sc.history.push(Step::Write {
+                    path: "s0".into(),
+                    bytes: source_content("s0", 1),
+                });
+            }
             let mut nr = cyclic_rule;
             nr.version = 1;
             sc.history.push(Step::SetRule {
